@@ -1,9 +1,9 @@
 """C33 (bounded stand-in): create_backup_archive / read_backup_archive are tarfile + yaml + json + AES-GCM code - library
 semantics that pyvc has no encoding for, and `cryptography` is not installed here.  The statement is evaluated as a
-run-time checked contract on the REAL archive.py (loaded from the file on every run) over an enumerated family of
-deployment sets, secret maps, generation maps and passwords, with `encryption.py` replaced by a stand-in that has the
-ASSUMED contract of an authenticated cipher (decrypt(encrypt(p, pw), pw) == p; any other password raises).  Nothing
-here is proved; the real encrypt / decrypt are not executed."""
+run-time checked contract on the REAL archive.py and encryption.py (loaded from their files on every run) over an
+enumerated family of deployment sets, secret maps, generation maps and passwords; only the three `cryptography`
+primitives encryption.py imports (PBKDF2HMAC, AESGCM, hashes.SHA256) come from a stand-in package with their ASSUMED
+contracts (deterministic key derivation; authenticated cipher).  Nothing here is proved."""
 import hashlib
 import importlib.util
 import io
@@ -17,43 +17,31 @@ VERIF = os.path.dirname(os.path.dirname(os.path.abspath(__file__)))
 REL = "packages/llama-agents-control-plane/src/llama_agents/control_plane/backup/archive.py"
 
 
-class InvalidTag(Exception):
-    pass
-
-
-def _stub_encryption():
-    m = types.ModuleType("c33pkg.encryption")
-
-    def encrypt(data: bytes, password: str) -> bytes:
-        tag = hashlib.sha256(password.encode()).digest()
-        return b"STUB" + tag + bytes(b ^ tag[i % 32] for i, b in enumerate(data))
-
-    def decrypt(blob: bytes, password: str) -> bytes:
-        tag = hashlib.sha256(password.encode()).digest()
-        if blob[:4] != b"STUB" or blob[4:36] != tag:
-            raise InvalidTag("wrong password (stand-in cipher)")
-        return bytes(b ^ tag[i % 32] for i, b in enumerate(blob[36:]))
-
-    m.encrypt, m.decrypt = encrypt, decrypt
-    return m
+ENC_REL = "packages/llama-agents-control-plane/src/llama_agents/control_plane/backup/encryption.py"
+STUB = os.path.join(VERIF, "replay_support", "crypto_stub")
 
 
 def load(repo):
+    """archive.py AND encryption.py of the repository, loaded from their files as a two-module package; only the
+    third-party `cryptography` primitives they import come from the stand-in package replay_support/crypto_stub"""
+    if STUB not in sys.path:
+        sys.path.insert(0, STUB)
     pkg = types.ModuleType("c33pkg")
     pkg.__path__ = []
     sys.modules["c33pkg"] = pkg
-    sys.modules["c33pkg.encryption"] = _stub_encryption()
-    spec = importlib.util.spec_from_file_location("c33pkg.archive", os.path.join(repo, REL))
-    m = importlib.util.module_from_spec(spec)
-    m.__package__ = "c33pkg"
-    sys.modules["c33pkg.archive"] = m
-    spec.loader.exec_module(m)
-    return m
+    for name, rel in (("encryption", ENC_REL), ("archive", REL)):
+        spec = importlib.util.spec_from_file_location(f"c33pkg.{name}", os.path.join(repo, rel))
+        m = importlib.util.module_from_spec(spec)
+        m.__package__ = "c33pkg"
+        sys.modules[f"c33pkg.{name}"] = m
+        spec.loader.exec_module(m)
+    return sys.modules["c33pkg.archive"]
 
 
 NAMES = ["a", "b1", "web-app", "z" * 63]
 SECRETS = [None, {}, {"TOKEN": "abc"}, {"N": "123", "NULL": "null", "EMPTY": "", "YES": "yes"},
-           {"MULTI": "line1\nline2: x\n", "UNI": "pässwörd ✓", "COLON": "a: b", "HASH": "#x"}]
+           {"MULTI": "line1\nline2: x\n", "UNI": "pässwörd ✓", "COLON": "a: b", "HASH": "#x",
+            "ASTRAL": "hello \U0001f600 \U00020000", "K\U0001f511": "v", "TAB": "a\tb", "QUOTE": "it's \"x\""}]
 GENS = [None, 0, 7]
 PASSWORDS = [None, "pw", "", "pässword ✓"]
 
@@ -163,21 +151,23 @@ def run(tier, seed, repo):
     return {
         "obligations": obs, "native_evaluations": n, "native_distinct": n,
         "functions": [{"function": "llama_agents.control_plane.backup.archive.create_backup_archive / read_backup_archive "
-                                   "(real file, encryption module replaced by a stand-in cipher)", "backend": "bounded"}],
+                                   "+ encryption.encrypt / decrypt / _derive_key (real files; the `cryptography` primitives are a "
+                                   "stand-in package)", "backend": "bounded"}],
         "assumptions": [
             f"BOUNDED, not proved: every ordered choice of up to {2 if tier != 'thorough' else 3} of the deployment names "
             f"{[x if len(x) < 10 else x[:3] + '...(63)' for x in NAMES]} (valid DNS-1035 labels), each with one of "
-            f"{len(SECRETS)} secret maps (absent, empty, plain, YAML-ambiguous strings, multi-line / non-ASCII / ': ' / '#' "
-            f"values) and one of {len(GENS)} generations (absent, 0, 7), under the passwords {PASSWORDS!r} ({n} archives)",
-            "ASSUMED, not executed: encryption.py's encrypt / decrypt (PBKDF2 + AES-GCM from `cryptography`, which is not "
-            "installed in this sandbox) are replaced by a stand-in with the contract of an authenticated cipher: "
-            "decrypt(encrypt(p, pw), pw) == p and every other password raises; 'encrypted secrets cannot be read with "
-            "a different password' is therefore decided only as far as archive.py is concerned (is every secret "
-            "routed through encrypt when a password is given?), the cipher itself is trusted",
+            f"{len(SECRETS)} secret maps (absent, empty, plain, YAML-ambiguous strings, multi-line / non-ASCII incl. non-BMP / ': ' / '#' / tab / quote "
+            f"values and keys) and one of {len(GENS)} generations (absent, 0, 7), under the passwords {PASSWORDS!r} ({n} archives)",
+            "ASSUMED: the third-party primitives encryption.py builds on (`cryptography` is not installed in this sandbox) "
+            "come from replay_support/crypto_stub with their contracts and none of their strength: PBKDF2HMAC.derive is a "
+            "deterministic function of (password, salt, length); AESGCM decrypts what it encrypted under the same key and "
+            "nonce and raises InvalidTag otherwise. encryption.py itself (salt / nonce generation, the wire format, the "
+            "length check, key derivation per message) IS executed; 'cannot be read with a different password' is decided "
+            "up to the cipher's own strength",
             "tarfile, gzip, PyYAML and json are executed as they are (their round-trip behaviour is part of what the "
             "enumeration exercises, within the bound)",
             "secrets / generations given for names that have no deployment are not part of a backup (the functions take "
             "them per deployment) and are not enumerated; duplicate deployment names are not 'a set of deployments'",
         ],
-        "coverage_extra": {"bounded_not_proved": ["all C33 obligations: enumeration bound and stand-in cipher (see assumptions)"]},
+        "coverage_extra": {"bounded_not_proved": ["all C33 obligations: enumeration bound and stand-in `cryptography` primitives (see assumptions)"]},
     }
